@@ -62,6 +62,9 @@ func (fx *FnExec) run() (err error) {
 		}
 	}
 	fx.rename, fx.baseParams = renamesFor(fx.key, fn)
+	if traceNames {
+		fmt.Fprintf(os.Stderr, "NAMES run %s: rename=%v baseParams=%v\n", fx.key, fx.rename, fx.baseParams)
+	}
 	for old, cur := range fx.rename {
 		if _, have := fx.names[old]; !have {
 			fx.names[old] = fx.names[cur]
@@ -181,6 +184,13 @@ func (fx *FnExec) specEnv(heap, old *Heap, results []Val) *Env {
 	for _, fv := range fx.fn.FreeVars {
 		if v, ok := fx.vals[fv]; ok {
 			env.names[fv.Name()] = v
+			for old, cur := range fx.rename {
+				if cur == fv.Name() {
+					if _, clash := env.names[old]; !clash {
+						env.names[old] = v
+					}
+				}
+			}
 		}
 	}
 	if fx.fn.Pkg != nil {
@@ -206,6 +216,15 @@ func (fx *FnExec) specEnv(heap, old *Heap, results []Val) *Env {
 		}
 		for i := 1; i < len(fx.fn.Params); i++ {
 			env.names[fmt.Sprintf("arg%d", i-1)] = fx.vals[fx.fn.Params[i]]
+		}
+		if bs := baseSigFor(fx.iface.Key, fx.iface.Obj); bs != nil && len(fx.iface.Params) == 0 {
+			for i := 1; i < len(bs); i++ {
+				if i < len(fx.fn.Params) && bs[i] != "" && bs[i] != "_" {
+					if _, clash := env.names[bs[i]]; !clash {
+						env.names[bs[i]] = fx.vals[fx.fn.Params[i]]
+					}
+				}
+			}
 		}
 		if fx.iface.Obj != nil && fx.iface.Obj.Pkg() != nil {
 			env.pkg = fx.iface.Obj.Pkg()
@@ -1772,6 +1791,15 @@ func (fx *FnExec) assumeInterfacePre() error {
 		}
 		for i := 1; i < len(fn.Params); i++ {
 			env.names[fmt.Sprintf("arg%d", i-1)] = fx.vals[fn.Params[i]]
+		}
+		if bs := baseSigFor(c.Key, c.Obj); bs != nil && len(c.Params) == 0 {
+			for i := 1; i < len(bs); i++ {
+				if i < len(fn.Params) && bs[i] != "" && bs[i] != "_" {
+					if _, clash := env.names[bs[i]]; !clash {
+						env.names[bs[i]] = fx.vals[fn.Params[i]]
+					}
+				}
+			}
 		}
 		for _, r := range c.Req {
 			t, err := env.evalBool(r.Text)
